@@ -493,7 +493,10 @@ def c02_r2_register_before_root(ctx):
             ctx.flows(f, p, 2, from_arg='guard', what='the table tree owns the transaction guard')
     ctx.callers_eq('ReadTransaction::new', {'<Database as ReadableDatabase>::begin_read', '<ReadOnlyDatabase as ReadableDatabase>::begin_read'},
                    allow_missing=({'<ReadOnlyDatabase as ReadableDatabase>::begin_read'} if ctx.cfg == 'N' else ()))
-    f = ctx.fn(WT + '::allocate_savepoint')
+    # the registration step lives in the private wrapper WriteTransaction::allocate_savepoint, or
+    # (wrapper inlined) in ephemeral_savepoint itself
+    wrapped = ctx.has_fn(WT + '::allocate_savepoint')
+    f = ctx.fn(WT + '::allocate_savepoint') if wrapped else ctx.fn(WT + '::ephemeral_savepoint')
     if f is not None:
         rr = ctx.sites(f, TT + '::register_read_transaction', exact=1)
         al = ctx.sites(f, TT + '::allocate_savepoint', exact=1)
@@ -502,14 +505,15 @@ def c02_r2_register_before_root(ctx):
             ctx.flows(f, p, 1, from_call=TT + '::register_read_transaction')
     f = ctx.fn(WT + '::ephemeral_savepoint')
     if f is not None:
-        al = ctx.sites(f, WT + '::allocate_savepoint', exact=1)
+        reg = WT + '::allocate_savepoint' if wrapped else TT + '::register_read_transaction'
+        al = ctx.sites(f, reg, exact=1)
         gr = ctx.sites(f, TM + '::get_data_root', exact=1)
-        ctx.guarded(f, gr, [ok(WT + '::allocate_savepoint')], 'savepoint root read only after the registration')
+        ctx.guarded(f, gr, [ok(reg)], 'savepoint root read only after the registration')
         ne = ctx.sites(f, 'Savepoint::new_ephemeral', exact=1)
         for p in ne:
             ctx.flows(f, p, 4, from_call=TM + '::get_data_root')
-            ctx.flows(f, p, 3, from_call=WT + '::allocate_savepoint')
-            ctx.flows(f, p, 2, from_call=WT + '::allocate_savepoint')
+            ctx.flows(f, p, 3, from_call=reg)
+            ctx.flows(f, p, 2, from_call=reg)
 
 
 # ------------------------------------------------------------------------------------ C02.R3
@@ -2045,7 +2049,10 @@ def c07_rules(ctx):
     f = ctx.fn(WT + '::ephemeral_savepoint')
     if f is not None:
         ld = ctx.atomic_sites(f, 'load', 'self.dirty', exact=1)
-        al = ctx.sites(f, WT + '::allocate_savepoint', exact=1)
+        if ctx.has_fn(WT + '::allocate_savepoint'):
+            al = ctx.sites(f, WT + '::allocate_savepoint', exact=1)
+        else:
+            al = ctx.sites(f, TT + '::register_read_transaction', exact=1) + ctx.sites(f, TT + '::allocate_savepoint', exact=1)
         ctx.held(f, ld + al, 'self.tables')
         ctx.guarded(f, al, [Guard(place='self.dirty', vals={'false'})], 'no savepoint in a dirty transaction')
     ctx.set_rule('C07.R2', 'validity checks cut off the restore')
